@@ -1,0 +1,42 @@
+//go:build verif
+
+package carddav
+
+// Composition harnesses for the deductive verifier in /verif (govc); see
+// internal/verif_harness.go. Nothing here is compiled without the verif tag.
+
+// what the client encodes is what the server decodes (the XML layer in between is assumed
+// to transport the wire structs faithfully, T-xml)
+func verifTextMatchRoundTrip(tm *TextMatch) *TextMatch {
+	return decodeTextMatch(encodeTextMatch(tm))
+}
+
+func verifParamFilterRoundTrip(pf *ParamFilter) (*ParamFilter, error) {
+	el, err := encodeParamFilter(pf)
+	if err != nil {
+		return nil, err
+	}
+	return decodeParamFilter(el)
+}
+
+func verifPropFilterRoundTrip(pf *PropFilter) (*PropFilter, error) {
+	el, err := encodePropFilter(pf)
+	if err != nil {
+		return nil, err
+	}
+	return decodePropFilter(el)
+}
+
+// attribute values: an empty MarshalText result means the attribute is omitted and the
+// decoder keeps the zero value
+func verifNegateConditionRoundTrip(b bool) (bool, error) {
+	txt, err := negateCondition(b).MarshalText()
+	if err != nil {
+		return false, err
+	}
+	var out negateCondition
+	if len(txt) > 0 {
+		err = out.UnmarshalText(txt)
+	}
+	return bool(out), err
+}
